@@ -20,6 +20,7 @@ RULE = ('(a) rule-directed templates: one family per rewrite rule of _expr_simp 
 RULE += ' Round 7: sibling terms identical except for nested constants that agree modulo 2^61-1, in the low half, or in all bits but the top one.'
 RULE += ' Round 8: mask-then-shift and shift-then-mask with every mask 0..255 x count 0..8 (8 bits) and masks around powers of two x counts 0..13, 31, 32 (32 bits); compositions in which two slices of one source that are consecutive in the source are separated by another piece; compositions with the same first component and a different later one under each operator.'
 RULE += " Round 9: a register and a symbol of the same name and width are two identifiers (as the library's own equality has it): templates that put both under one operator, in two addresses, in adjacent slices; the random valuations give them different values."
+RULE += ' Round 10: trees built with shared sub-term objects (identical sub-terms are one object, as user code and the lifter build them) are simplified, simplified again as the same object, and their parts simplified afterwards - every result must have the value of the tree as given (templates in which a slice sits in a mergeable composition and elsewhere in the tree, the slice/compose templates, random trees); shifts and rotates whose constant count is 8 bits wide under a 16/32/64-bit value (as lifted for cl and imm8 counts), counts 0,1,7,8,9,w-1,w,w+1,255 over masked, or-ed, constant operands.'
 ASSUMPTIONS = ['irsem is the meaning of the IR (self-test at setup)', 'termination is decided as bounded progress: at most 2000+400*nodes calls of _expr_simp per top-level call']
 
 _counter = {'n': 0, 'limit': 0}
@@ -635,8 +636,127 @@ def shadow_templates(names, order):
                     yield 'shadow:mem', ex.ExprMem(t, 8)
 
 
+def shared_copy(e, pool=None):
+    """Copy in which structurally identical sub-terms are ONE object (as trees built by user code and by the lifter are): a
+    rewrite that edits a node of its input in place then shows in the node's other occurrences and in the next call."""
+    ex, mi = exprgen.M()
+    pool = {} if pool is None else pool
+    c = exprgen.canon(e)
+    if c in pool:
+        return pool[c]
+    k = e.__class__.__name__
+    if k == 'ExprInt':
+        r = ex.ExprInt(e.arg.__class__(e.arg))
+    elif k == 'ExprId':
+        r = ex.ExprId(e.name, e.size, is_term=e.is_term, is_reg=e.is_reg)
+    elif k == 'ExprMem':
+        r = ex.ExprMem(shared_copy(e.arg, pool), e.size, shared_copy(e.segm, pool) if hasattr(e.segm, 'visit') else e.segm)
+    elif k == 'ExprSlice':
+        r = ex.ExprSlice(shared_copy(e.arg, pool), e.start, e.stop)
+    elif k == 'ExprCompose':
+        r = ex.ExprCompose([(shared_copy(a, pool), s_, t_) for a, s_, t_ in e.args])
+    elif k == 'ExprCond':
+        r = ex.ExprCond(shared_copy(e.cond, pool), shared_copy(e.src1, pool), shared_copy(e.src2, pool))
+    elif k == 'ExprOp':
+        r = ex.ExprOp(e.op, *[shared_copy(a, pool) for a in e.args])
+    else:
+        raise ValueError(k)
+    pool[c] = r
+    return r
+
+
+def check_shared(sh, e, seedtag, origin):
+    """The tree with shared sub-term objects, simplified, simplified again (same object), and its parts simplified afterwards:
+    every result must still have the value of the tree as it was given."""
+    c = exprgen.canon(e)
+    if irsem.typecheck(e):
+        return
+    envs = valuations(e, seedtag)
+    pool = {}
+    inp = shared_copy(e, pool)
+    stages = []
+    try:
+        s1, _ = simp_monitored(inp)
+        stages.append(('first', e, s1))
+        s2, _ = simp_monitored(inp)
+        stages.append(('second-call-same-object', e, s2))
+        # the sub-terms of the caller's tree, simplified after the whole (they are the caller's objects, possibly edited by now)
+        for ck, obj in list(pool.items()):
+            if obj.__class__.__name__ in ('ExprCompose', 'ExprSlice', 'ExprOp') and ck != c:
+                so, _ = simp_monitored(obj)
+                stages.append(('part-after-whole', parse_back(ck, e), so))
+    except common.StepBound as ex:
+        sh.violation('%s/shared:step-bound' % root_skeleton(e), str(ex), {'tree': c, 'shared': True})
+        return
+    except Exception as ex:
+        sh.counters['shared_raises:%s' % type(ex).__name__] += 1
+        return
+    sh.case(('shared', c), nontrivial=True, cls='shared:%s' % origin)
+    for what, ref, got in stages:
+        if ref is None:
+            continue
+        err = compare(ref, got, valuations(ref, seedtag) if ref is not e else envs)
+        if err is not None and err[0] != 'input-ill-formed':
+            # only a history effect if the same term simplified from a fresh copy is right
+            if run_one(ref, seedtag) is None:
+                sh.violation('%s/shared:%s/%s' % (root_skeleton(e), what, err[0]), 'tree %s built with shared sub-term objects: %s gives %s : %s (the same term simplified from a fresh copy is right)' % (e, what, got, err[1]),
+                             {'tree': c, 'shared': True})
+                return
+
+
+def parse_back(ck, e):
+    for t in exprgen.subterms(e):
+        if exprgen.canon(t) == ck:
+            return t
+    return None
+
+
+def shared_templates():
+    """Slices that sit in a mergeable composition AND elsewhere in the same tree."""
+    ex, mi = exprgen.M()
+    I = exprgen.Int
+    S, Cm, Op = ex.ExprSlice, ex.ExprCompose, ex.ExprOp
+    for w, nm in ((32, 'x32'), (64, 'x64'), (16, 'x16')):
+        x = ex.ExprId(nm, w)
+        c = ex.ExprId('c1', 1)
+        q = w // 4
+        lo, mid, hi = S(x, 0, q), S(x, q, 2 * q), S(x, 2 * q, 3 * q)
+        z = lambda t, tw: Cm([(t, 0, tw), (S(I(0, w), tw, w), tw, w)])
+        pair = Cm([(lo, 0, q), (mid, q, 2 * q), (S(ex.ExprId('y' + nm[1:], w), 0, w - 2 * q), 2 * q, w)])
+        pair2 = Cm([(S(ex.ExprId('y' + nm[1:], w), 0, w - 2 * q), 0, w - 2 * q), (mid, w - 2 * q, w - q), (hi, w - q, w)])
+        for other_name, other in (('lo', lo), ('mid', mid), ('hi', hi)):
+            yield 'shared-slice', Op('+', pair, z(other, q))
+            yield 'shared-slice', Op('^', z(other, q), pair)
+            yield 'shared-slice', ex.ExprCond(c, pair, Cm([(other, 0, q), (S(I(0, w), q, w), q, w)]))
+            yield 'shared-slice', ex.ExprCond(c, Cm([(other, 0, q), (S(I(0, w), q, w), q, w)]), pair)
+            yield 'shared-slice', Op('+', pair2, z(other, q))
+            yield 'shared-slice', ex.ExprCond(S(other, 0, 1), pair2, pair)
+        yield 'shared-slice', Op('+', pair, pair2)
+        yield 'shared-slice', Op('^', pair, Cm([(mid, 0, q), (lo, q, 2 * q), (S(x, 2 * q, w), 2 * q, w)]))
+
+
+def narrow_count_templates():
+    """Shifts and rotates whose constant count is narrower than the shifted value (as the lifter writes for shifts by cl and by
+    imm8): the result has the width of the value."""
+    ex, mi = exprgen.M()
+    I = exprgen.Int
+    Op = ex.ExprOp
+    for w in (16, 32, 64):
+        x, y = ex.ExprId('x%d' % w, w), ex.ExprId('y%d' % w, w)
+        m_ = irsem.mask(w)
+        inners = [x, Op('&', x, I(0xff, w)), Op('&', x, I(1, w)), Op('&', x, I(m_, w)), Op('&', x, I(0x100, w)), Op('|', x, I(0xff, w)), Op('^', x, I(1 << (w - 1), w)),
+                  Op('+', x, I(1, w)), I(0x81, w), I(m_, w), Op('&', I(0xf0, w), x)]
+        for o1 in ('>>', '<<', 'a>>', '<<<', '>>>'):
+            for k in (0, 1, 7, 8, 9, w - 1, w, w + 1, 255):
+                for inner in inners:
+                    e = Op(o1, inner, I(k & 0xff, 8))
+                    yield 'narrow-count', e
+                    yield 'narrow-count', Op('+', e, y)
+                    yield 'narrow-count', Op('^', Op(o1, Op(o1, inner, I(k & 0xff, 8)), I(3, 8)), y)
+
+
 def shards(tier, seed):
-    out = [('shadow', 'narrow-first'), ('shadow', 'wide-first')]
+    out = [('shadow', 'narrow-first'), ('shadow', 'wide-first'), ('shared', 0), ('shared', 1), ('shared', 2), ('shared', 3), ('narrowcount', 0), ('narrowcount', 1)]
     for w in (1, 8, 16, 32, 64):
         for part in range(4):
             out.append(('tmpl', w, part))
@@ -665,6 +785,19 @@ def run_shard(shard, tier, seed):
     elif kind == 'slicecomp':
         for i, (fam, t) in enumerate(slice_compose_templates()):
             check_tree(sh, t, ('sc', i), 'tmpl:%s' % fam, exhaustive8=512)
+    elif kind == 'shared':
+        corpus = [(fam, t) for fam, t in shared_templates()] + [(fam, t) for fam, t in slice_compose_templates()]
+        for i, (fam, t) in enumerate(corpus):
+            if i % 4 == shard[1]:
+                check_shared(sh, t, ('shr', i), 'tmpl:%s' % fam)
+        rng = common.rng_for(seed, 'C05shared', shard[1])
+        g = exprgen.Gen(rng, ops=('+', '*', '^', '&', '|'), segm=True)
+        for i in range(30 if tier == 'quick' else 400):
+            check_shared(sh, g.gen(rng.choice((8, 16, 32, 32, 64)), rng.choice((2, 3, 3, 4))), (seed, 'shr', shard[1], i), 'rand')
+    elif kind == 'narrowcount':
+        for i, (fam, t) in enumerate(narrow_count_templates()):
+            if i % 2 == shard[1]:
+                check_tree(sh, t, ('nc', i), 'tmpl:%s' % fam)
     elif kind == 'ambient':
         ambient_contracts(sh, 'expr_simp')
     elif kind == 'lifted':
@@ -703,5 +836,8 @@ def replay(w):
     sh = common.Shard()
     install_monitor()
     e = parse_canon(w['tree'])
+    if w.get('shared'):
+        check_shared(sh, e, ('replay',), 'replay')
+        return [(v['key'], v['detail']) for v in sh.violations]
     check_tree(sh, e, ('replay',), 'replay', exhaustive8=65536)
     return [(v['key'], v['detail']) for v in sh.violations]
